@@ -189,4 +189,100 @@ theorem widen_strSz (r r' : Rng) (hr : r'.sub r = true) (b : Ty) (hb : b.NoAlias
     simp [Ty.isAny] at h ⊢
     unfold asgRecv at h; simp at h
 
+theorem get_replace {α : Type} (pre post : List α) (x y : α) : ∀ (j : Nat) (t u : α),
+    (pre ++ x :: post)[j]? = some t → (pre ++ y :: post)[j]? = some u →
+    (t = x ∧ u = y) ∨ (t = u ∧ t ∈ pre ++ post) := by
+  induction pre with
+  | nil =>
+    intro j t u ht hu
+    cases j with
+    | zero => simp at ht hu; left; exact ⟨ht.symm, hu.symm⟩
+    | succ k =>
+      simp at ht hu
+      right; rw [ht] at hu; cases hu
+      exact ⟨rfl, by simpa using List.mem_of_getElem? ht⟩
+  | cons p pre ih =>
+    intro j t u ht hu
+    cases j with
+    | zero => simp at ht hu; right; rw [← ht, ← hu]; exact ⟨rfl, by simp⟩
+    | succ k =>
+      simp at ht hu
+      rcases ih k t u ht hu with h | h
+      · left; exact h
+      · right; exact ⟨h.1, by simp at h ⊢; rcases h.2 with h2 | h2 <;> simp [h2]⟩
+
+/-- replacing one slot of a Tuple by a type it accepts (siblings reflexive, size unchanged) -/
+theorem mono_tuple (pre post : List Ty) (a b : Ty) (g : Option Rng)
+    (hsib : ∀ t ∈ pre ++ post, asg cfg sfh t t = true) (h : asg cfg sfh a b = true) :
+    asg cfg sfh (.tuple (pre ++ a :: post) g) (.tuple (pre ++ b :: post) g) = true := by
+  rw [asg_plain_r cfg sfh _ _ rfl]; simp only [Bool.or_eq_true]; right
+  unfold asgRecv
+  have hlen : (pre ++ a :: post).length = (pre ++ b :: post).length := by simp
+  have hsz : tupleSize (pre ++ a :: post) g = tupleSize (pre ++ b :: post) g := by
+    cases g <;> simp [tupleSize]
+  simp only [hsz, Rng.sub_refl, Bool.true_and, Bool.or_eq_true]
+  right
+  have hne : ¬ ((pre ++ b :: post).isEmpty = true) := by simp
+  rw [if_neg hne, tupZip_iff cfg sfh _ _ _ (by simp) (by simp)]
+  intro i t u _ _ ht hu
+  rw [hlen] at ht
+  rcases get_replace pre post a b _ t u ht hu with ⟨rfl, rfl⟩ | ⟨rfl, hm⟩
+  · exact h
+  · exact hsib t hm
+
+/-- widening the size of a Tuple in the receiver -/
+theorem widen_tuple (ts : List Ty) (r r' : Rng) (hr : r'.sub r = true) (b : Ty) (hb : b.NoAliasR)
+    (h : asg cfg sfh (.tuple ts (some r)) b = true) : asg cfg sfh (.tuple ts (some r')) b = true := by
+  apply left_weaken cfg sfh (.tuple ts (some r)) (.tuple ts (some r')) _ b.w b (Nat.le_refl _) hb h
+  intro b hp h
+  rcases hp with hp | ⟨nt, rfl, hnt⟩
+  · rw [asg_plain_r cfg sfh _ b hp] at h ⊢
+    simp only [Ty.isAny, Bool.false_or, Bool.or_eq_true] at h ⊢
+    rcases h with h | h
+    · cases b <;> simp [sameNullary] at h
+    · right; unfold asgRecv at h ⊢
+      cases b <;> simp only [] at h ⊢ <;> (first | contradiction | skip)
+      · rw [Bool.and_eq_true] at h ⊢
+        simp only [tupleSize] at h ⊢
+        exact ⟨Rng.sub_trans hr h.1, h.2⟩
+      · rw [Bool.and_eq_true] at h ⊢
+        simp only [tupleSize] at h ⊢
+        exact ⟨Rng.sub_trans hr h.1, h.2⟩
+  · rw [asg_notUndef_r, hnt] at h ⊢
+    simp [Ty.isAny] at h ⊢
+    unfold asgRecv at h; simp at h
+
+/-- replacing the value type of one Struct member by a type it accepts (names pairwise different, siblings reflexive) -/
+theorem mono_struct (pre post : List Member) (n : String) (o : Bool) (t t' : Ty)
+    (hnd : NamesNodup (pre ++ (n, o, t) :: post))
+    (hsib : ∀ m ∈ pre ++ post, asg cfg sfh m.2.2 m.2.2 = true) (h : asg cfg sfh t t' = true) :
+    asg cfg sfh (.struct (pre ++ (n, o, t) :: post)) (.struct (pre ++ (n, o, t') :: post)) = true := by
+  rw [asg_plain_r cfg sfh _ _ rfl]; simp only [Bool.or_eq_true]; right
+  unfold asgRecv
+  simp only [beq_iff_eq]
+  have hnames : (pre ++ (n, o, t') :: post).map (·.1) = (pre ++ (n, o, t) :: post).map (·.1) := by simp
+  have hnd' : NamesNodup (pre ++ (n, o, t') :: post) := by unfold NamesNodup; rw [hnames]; exact hnd
+  rw [distinctCount_nodup _ hnd', structAll_iff cfg sfh _ _ hnd']
+  constructor
+  · intro m hm
+    rw [SMemberOK]
+    simp only [List.mem_append, List.mem_cons] at hm
+    rcases hm with hm | rfl | hm
+    · rw [structMember_mem cfg sfh m.1 m.2.1 m.2.2 _ hnd' m (by simp [hm]) rfl]
+      simp [hsib m (by simp [hm])]
+    · rw [structMember_mem cfg sfh n o t _ hnd' (n, o, t') (by simp) rfl]
+      simp [h]
+    · rw [structMember_mem cfg sfh m.1 m.2.1 m.2.2 _ hnd' m (by simp [hm]) rfl]
+      simp [hsib m (by simp [hm])]
+  · rw [sFound_eq _ _ hnd, List.length_map]
+    symm
+    apply List.countP_eq_length.2
+    intro m' hm'
+    simp only [nameIn, List.any_eq_true]
+    simp only [List.mem_append, List.mem_cons] at hm'
+    rcases hm' with hm' | rfl | hm'
+    · exact ⟨m', by simp [hm'], (nameIs_iff _ _).2 rfl⟩
+    · exact ⟨(n, o, t), by simp, (nameIs_iff _ _).2 rfl⟩
+    · exact ⟨m', by simp [hm'], (nameIs_iff _ _).2 rfl⟩
+
 end Pcore.Lat
